@@ -189,6 +189,33 @@ func initBig() {
 		}
 		return setRecv(a, r)
 	}
+	intrinsics["(*math/big.Int).BitLen"] = func(in *Interp, fn *ssa.Function, a []Value) Value {
+		x := bigOf(a[0])
+		if x.IsConst() {
+			return BVConstI(64, int64(new(big.Int).Abs(x.Val).BitLen()))
+		}
+		// magnitudes that are bit-vectors underneath: the bit length is a term, no fork
+		if x.Op == "bv2nat" {
+			return bitsLen(x.Args[0])
+		}
+		if x.Op == "-" && len(x.Args) == 2 && x.Args[0].IsConst() && x.Args[0].Val.Sign() == 0 && x.Args[1].Op == "bv2nat" {
+			return bitsLen(x.Args[1].Args[0])
+		}
+		// |x| < 2^n for the smallest n: forked over the feasible bit lengths (bounded)
+		ax := Ite(IntCmp("<", x, IntConst(big.NewInt(0))), IntBin("-", IntConst(big.NewInt(0)), x), x)
+		const maxBits = 96
+		n := 0
+		for ; n <= maxBits; n++ {
+			if in.ctx.Branch(IntCmp("<", ax, IntConst(new(big.Int).Lsh(big.NewInt(1), uint(n))))) {
+				break
+			}
+		}
+		if n > maxBits {
+			in.ctx.ex.BoundHits++
+			panic(abortPath{"big.Int.BitLen beyond the modelled bound"})
+		}
+		return BVConstI(64, int64(n))
+	}
 	intrinsics["(*math/big.Int).Neg"] = func(in *Interp, fn *ssa.Function, a []Value) Value {
 		return setRecv(a, IntBin("-", IntConst(big.NewInt(0)), bigOf(a[1])))
 	}
